@@ -226,7 +226,7 @@ func firstDiff(t Tree, engine string, got, want []event) viol {
 		}
 		switch {
 		case g.K != w.K || g.Fn != w.Fn:
-			return viol{fmt.Sprintf("sequence:%s:want-%s(%s):got-%s(%s)", engine, kindName(w.K), nodeClass(t, w.Fn), kindName(g.K), nodeClass(t, g.Fn)), ctx(i)}
+			return viol{fmt.Sprintf("sequence:%s:want-%s(%s):got-%s(%s:%s)", engine, kindName(w.K), nodeClass(t, w.Fn), kindName(g.K), nodeClass(t, g.Fn), relation(t, g.Fn, w.Fn)), ctx(i)}
 		case !sameStack(g.Stack, w.Stack):
 			what := "extra-frame"
 			for k := range w.Stack {
@@ -286,4 +286,25 @@ func normalizeForEngines(t Tree, ev []event) string {
 		out = append(out, f)
 	}
 	return streamString(out)
+}
+
+// relation of node a to node b in the call tree (part of sequence signatures).
+func relation(t Tree, a, b int) string {
+	if a < 0 || a >= len(t) || b < 0 || b >= len(t) {
+		return "unknown"
+	}
+	if a == b {
+		return "same-function"
+	}
+	for x := t[b].Parent; x >= 0; x = t[x].Parent {
+		if x == a {
+			return "its-caller"
+		}
+	}
+	for x := t[a].Parent; x >= 0; x = t[x].Parent {
+		if x == b {
+			return "its-callee"
+		}
+	}
+	return "other-branch"
 }
